@@ -325,6 +325,30 @@ def summed_bath_case(args):
             "infl": float(np.abs(ss - sf).max()), "epsrel": epsrel, "idx": idx}
 
 
+def resolution_case(order):
+    """ONE System object contracted with ancilla process tensors built for different time steps (a convergence scan),
+    in the given order; every run against the joint simulation with the half-step propagators of ITS time step."""
+    d, e, n = 2, 3, 3
+    h = M.generic_herm(d, 1, 0.8)
+    sysm = oq.System(h, gammas=[0.2], lindblad_operators=[np.diag(np.ones(d - 1), 1).astype(complex)])
+    sigma = anc_state(e, 1)
+    ks = [[R.random_free_unitary(d * e, 10 + k)] for k in range(n)]
+    rho0 = M.generic_state(d, 2)
+    bad = []
+    for i, dt in enumerate(order):
+        pt = A.build_pt(d, e, sigma, ks, dt=dt)
+        dyn = oq.compute_dynamics(sysm, rho0, process_tensor=pt, progress_type="silent")
+        pr = R.half_props(h, dt, [0.2], [np.diag(np.ones(d - 1), 1).astype(complex)])
+        ref = np.array(R.simulate(rho0, [sigma], lambda j, k: ks[k], lambda k: pr, n))
+        dev = float(np.abs(np.array(dyn.states) - ref).max())
+        tdev = float(np.abs(np.array(dyn.times) - dt * np.arange(n + 1)).max())
+        if dev > TOL or tdev > 1e-12:
+            bad.append((f"resolution|time-step-{'first' if i == 0 else 'after-other-time-steps'}|state-mismatch",
+                        f"one System object, process tensors with dt={list(order[:i + 1])}: run at dt={dt} deviates from the "
+                        f"joint evolution by {dev:.2e}"))
+    return {"bad": bad, "n": len(order)}
+
+
 def _worker(case):
     r = run_case(case)
     r.pop("states", None)
@@ -333,6 +357,10 @@ def _worker(case):
 
 def run(tier, seed):
     rep = Report(LEVEL)
+    ro = list(itertools.permutations((0.4, 0.2, 0.1)))
+    for o_, r_ in zip(ro, pmap(resolution_case, ro, chunksize=1, seed=seed)):
+        for cls, what in r_["bad"]:
+            rep.add(Violation(cls, what, {"fam": "resolution", "order": list(o_)}))
     cases = cases_single(tier) + cases_multi(tier)
     res = pmap(_worker, cases, seed=seed)
     keys = set()
@@ -398,6 +426,9 @@ def run(tier, seed):
 
 
 def replay(rp):
+    if rp.get("fam") == "resolution":
+        r = resolution_case(tuple(rp["order"]))
+        return {"obs": r["bad"], "violation": r["bad"][0][0] if r["bad"] else None}
     fam = rp.get("fam")
     if fam == "commuting":
         r = commuting_case(tuple(rp["args"]))
